@@ -376,8 +376,8 @@ def table_tokens(L_, d, case):
 def formats(H, v):
     """every value-returning formatting method / option: (name, callable, model request name or None)"""
     return [
-        ('canonical', lambda: H.canonical(), 'canonical'),
-        ('canonical_fc', lambda: H.canonical(factor_const=True), 'canonical_fc'),
+        ('canonical', lambda: H.canonical(), ('canonical', 'canonical_br')),
+        ('canonical_fc', lambda: H.canonical(factor_const=True), ('canonical_fc', 'canonical_fc_br')),
         ('general', lambda: H.general(), 'general'),
         ('standard', lambda: H.standard(), 'standard'),
         ('mixedfrac', lambda: H.mixedfrac(), 'standard'),
@@ -426,10 +426,25 @@ class Runner:
     def ask(self, line):
         return self.drv.ask1(line)
 
+    PENDING = {
+        # id -> (predicate on (case, key), description); counted as 'pending-finding' until known-findings.json has the id
+        'C11-F34-zpk-unfound-roots': (lambda case, key: case.get('kind') == 'unsolvable' and key.get('kind') == 'format'
+                                      and str(key.get('format', '')).split('_')[0] in ('ZPK', 'factored'),
+                                      'ZPK()/factored() silently drop every factor whose roots sym.roots does not find'),
+    }
+
     def cex(self, case, key, detail, what):
-        self.counterexamples += 1
         key = dict(key)
         key['delay'] = Fraction(case['T']) != 0
+        if case.get('kind') == 'unsolvable':
+            key['roots_found'] = False
+        for fid, (pred, desc) in self.PENDING.items():
+            if pred(case, key):
+                key['finding'] = fid
+                if not any(f.get('id') == fid for f in self.chk.findings):
+                    self.chk.count('pending-finding', '%s: %s (%s)' % (fid, desc, key.get('format')))
+                    return
+        self.counterexamples += 1
         self.chk.counterexample(key, {'input': case, 'detail': detail,
                                       'how': 'build B/A*exp(-T*var)*U(var) from the coefficient lists (low order first) in the given domain, call the named method, evaluate at the point (exp(-%s*var) := w, U := u)' % fstr(T0)},
                                 what)
@@ -456,7 +471,7 @@ class Runner:
             pts.append((pt, sv))
         return pts
 
-    def run_case(self, case, rng, only=None):
+    def run_case(self, case, rng, only=None, subset=None):
         chk, L_ = self.chk, self.L
         S = L_.sym
         v = L_.VAR[case['domain']]
@@ -482,6 +497,8 @@ class Runner:
         # ---------------- value formats
         for (fname, call, mreq) in formats(H, v):
             if only and fname != only:
+                continue
+            if subset is not None and fname not in subset:
                 continue
             if fname == 'rationalize_denominator' and (case['domain'] not in ('jw', 'jf') or case['nu'] or hasdelay or case.get('symvals')):
                 continue
@@ -521,7 +538,7 @@ class Runner:
                              {'format': fname, 'point': ptstr(pt), 'lcapy_value': got, 'spec_value': sv, 'lcapy_result': str(res)[:300]},
                              '%s() changes the value of the expression' % fname)
                     break
-        if only:
+        if only or subset is not None:
             return
         self.data_checks(case, H, pts, rng)
 
@@ -1179,6 +1196,77 @@ class Runner:
             case['A'] = [fstr(wv * wv), fstr(2 * zv * wv), '1']
             self.damping_case(case, rng)
 
+
+    # ---------------- full cross-product of the special constants the builders branch on
+    CHEAP = ('canonical', 'canonical_fc', 'general', 'standard', 'mixedfrac', 'partfrac', 'partfrac_ec', 'partfrac_pairs', 'recippartfrac',
+             'ZPK', 'ZPK_pairs', 'factored', 'factored_pairs', 'timeconst', 'timeconst_terms', 'expandcanonical', 'N_over_D', 'as_N_D_monic',
+             'multiply_top_and_bottom', 'divide_top_and_bottom', 'as_sum', 'as_monic_terms', 'as_nonmonic_terms', 'expand_response',
+             'simplify_factors', 'simplify_terms')
+
+    def cross_checks(self, rng):
+        """every format / option x gain exactly 1, -1, generic x delay / no delay x undefined factor / none, plus the unit numerator
+        (`N == 1`) and unit denominator (`D == 1`) branches: low-degree functions with distinct rational roots so that every call is cheap"""
+        chk = self.chk
+        subset = set(self.CHEAP) if chk.tier == 'quick' else None
+        combos = [(g, t, nu) for g in ('1', '-1', 'generic') for t in (0, 1) for nu in (0, 1)]
+        extra = [('unitN', 0, 1), ('unitN', 1, 0), ('unitD', 0, 1), ('unitD', 1, 1)]
+        for i, (g, t, nu) in enumerate(combos + extra):
+            domain = ['s', 'z', 'jw', 'jf'][i % 4]
+            ps = rng.sample([Fraction(k) for k in (-5, -4, -3, -2, -1, 1, 2, 3)], 2)
+            zs = rng.sample([Fraction(k, 2) for k in (-7, -5, -3, 1, 3, 5, 7)], [2, 1, 0][i % 3])
+            lc = {'1': Fraction(1), '-1': Fraction(-1), 'generic': rand_rat(rng, 2, 6, (1, 3)), 'unitN': Fraction(1), 'unitD': Fraction(1)}[g]
+            A = poly_from_roots((Fraction(1), Fraction(0)), [((p, Fraction(0)), 1) for p in ps])
+            B = poly_from_roots((lc, Fraction(0)), [((z, Fraction(0)), 1) for z in zs])
+            if g == 'unitN':
+                B = [(Fraction(1), Fraction(0))]
+            if g == 'unitD':
+                A = [(Fraction(1), Fraction(0))]
+            case = {'domain': domain, 'kind': 'cross', 'symvals': None, 'B': [cqs(c) for c in B], 'A': [cqs(c) for c in A],
+                    'rootsA': None, 'rootsB': None, 'T': fstr(rng.choice([1, 2, 3]) * T0 if t else Fraction(0)), 'nu': nu,
+                    'cross': {'gain': g, 'delay': bool(t), 'undef': bool(nu)}}
+            chk.count('cross-product (gain, delay, undef)', '%s, %s, %s' % (g, 'delay' if t else 'no delay', 'undef' if nu else 'no undef'))
+            self.run_case(case, rng, subset=subset)
+
+    UNSOLVABLE = (['1', '2', '0', '0', '0', '1'], ['-1', '-1', '0', '0', '0', '1'], ['3', '-1', '0', '0', '0', '1'])     # x^5+2x+1, x^5-x-1, x^5-x+3
+
+    def unsolvable_checks(self, rng, n):
+        """denominators / numerators whose roots SymPy cannot express (irreducible quintics): every format must still keep the value
+        (or raise); formats that need exact roots are judged like all others"""
+        chk = self.chk
+        fm = {'canonical', 'canonical_fc', 'general', 'standard', 'timeconst', 'expandcanonical', 'ZPK', 'ZPK_pairs', 'factored',
+              'factored_pairs', 'ZPK_combine_conjugates', 'N_over_D'}
+        for i in range(n):
+            q = list(self.UNSOLVABLE[i % len(self.UNSOLVABLE)])
+            other = [cqs(c) for c in poly_from_roots((rand_rat(rng, 1, 4, (1, 2), nz=True), Fraction(0)),
+                                                     [((rand_rat(rng, -4, 4), Fraction(0)), 1) for _ in range(i % 2 + 0)])]
+            case = {'domain': ['s', 'z'][i % 2], 'kind': 'unsolvable', 'symvals': None, 'rootsA': None, 'rootsB': None,
+                    'B': other if i % 3 != 2 else q, 'A': q if i % 3 != 2 else ['2', '1'], 'T': fstr(Fraction(0) if i % 2 else T0), 'nu': i % 2}
+            chk.count('unsolvable', 'quintic in the %s' % ('denominator' if i % 3 != 2 else 'numerator'))
+            self.run_case(case, rng, subset=fm)
+
+    def option_observations(self):
+        """options that are accepted but ignored (no change of value: counted as observations, never alarmed)"""
+        chk, L_ = self.chk, self.L
+        S = L_.sym
+        v = L_.VAR['s']
+        zeta, w0 = S.Symbol('zeta', positive=True), S.Symbol('omega0', positive=True)
+        e = 1 / (v**2 + 2 * zeta * w0 * v + w0**2)
+
+        def obs():
+            H1 = L_.lcapy.expr(e)
+            H1.poles()
+            a = str(H1.poles(damping='under'))
+            b = str(L_.lcapy.expr(e).poles(damping='under'))
+            H2 = L_.lcapy.expr((v + 1) / ((v**2 + 4) * (v + 3)))
+            c = str(H2.recippartfrac(pairs=True)) == str(H2.recippartfrac(combine_conjugates=True))
+            return a == b, c
+        r, err = L_.timed(obs, self.tlimit)
+        if err:
+            chk.count('lcapy-error', 'option-observations:%s' % err)
+            return
+        chk.count('observation', 'poles(damping=...) after poles(): %s' % ('consistent' if r[0] else 'served from the cache of the earlier call (damping ignored)'))
+        chk.count('observation', 'recippartfrac(pairs=True): %s' % ('same as combine_conjugates=True' if r[1] else 'option ignored (only combine_conjugates is passed on)'))
+
     # ---------------- zp2tf with list / dictionary arguments
     def zp2tf_checks(self, rng, n):
         chk, L_ = self.chk, self.L
@@ -1257,6 +1345,8 @@ def run(chk, replay=None):
                             'B, A from root tables (rational, zero, repeated, conjugate pairs, lone Gaussian roots), random coefficients, '
                             'symbolic coefficients sampled at rational values, or with a common factor; deg 0..4 each; T in {0, k/2}; nu in {0,1,2}; '
                             'in the z domain also written in powers of 1/z; '
+                            'a full cross-product stream (gain exactly 1 / -1 / generic x delay x undefined factor, plus unit numerator and unit denominator) runs every cheap format and option (all of them in the thorough tier); '
+                            'irreducible quintics exercise the formats when SymPy finds no roots; '
                             'a separate stream B(s)/(s^2 + 2 zeta omega0 s + omega0^2) with symbolic zeta, omega0 exercises the damping= option of poles / partfrac / as_QRPO; '
                             'every formatting method/option is called on it and judged at 2 (quick) / 3 (thorough) random rational points; '
                             'the data-returning methods (coeffs, normcoeffs, Ratfun.coeffs, ba, degrees, poles/zeros dictionaries and lists, as_QMA, as_QRPO, '
@@ -1284,6 +1374,9 @@ def run(chk, replay=None):
                     if 'B' in c.get('input', {}):
                         R.run_case(c['input'], rng)
                         chk.count('corpus', fn)
+        R.cross_checks(rng)
+        R.unsolvable_checks(rng, 3 if chk.tier == 'quick' else 9)
+        R.option_observations()
         ncases = 84 if chk.tier == 'quick' else 600
         budget = 110 if chk.tier == 'quick' else 900
         cap = 150 if chk.tier == 'quick' else 1050        # total elapsed (build + import + corpus), keeps the wall time bounded on a loaded machine
